@@ -465,6 +465,20 @@ def variants(doc):
                 l5 = get(d5, path)
                 l5[i] = ("TRY", [l5[i]], [("T", "<after-handler>")])
                 yield "%% try around a call with a raising argument at %s[%d]" % ("/".join(map(str, path)), i), d5, None
+    # a nested def whose argument default raises: evaluated in the preamble of the enclosing def, i.e. after a
+    # buffered / filtered / cached def has been entered but before its body writes anything
+    for di, d in enumerate(doc["defs"]):
+        # (a nested def with keyword-only parameters is left alone: a default before a bare '*' is the shape of
+        # the open finding C05/bare-star-dropped)
+        if d.get("nested") and not any(k == "kwonly" for _, k, _ in d["nested"][0]["sig"]):
+            d9 = copy.deepcopy(doc)
+            nd = d9["defs"][di]["nested"][0]
+            sig9 = list(nd["sig"])
+            at = next((j for j, (_, k, _) in enumerate(sig9) if k in ("varargs", "kwonly", "kwargs")), len(sig9))
+            sig9.insert(at, ("zz_", "rdefault", None))
+            nd["sig"] = sig9
+            yield "no handler; raising default of a nested def of %s" % d["name"], d9, None
+            yield "%% try around the body; raising default of a nested def of %s" % d["name"], wrap_body(d9), None
     if any(d.get("filter") == "rz" for d in doc["defs"]):
         yield "no handler; raise inside the filter function", copy.deepcopy(doc), "filter"
         yield "% try around the body; raise inside the filter function", wrap_body(doc), "filter"
